@@ -654,6 +654,39 @@ fn legacy_judge(net: &Network, o: &Observed, class: &str) -> Vec<(String, String
     v
 }
 
+
+/// TEXT-level faults (not expressible in memory, where a link index is a u32): an index field of the network FILE
+/// holds a number outside the u32 range.  variant 0: v + 2^32 (would wrap to the original, consistent value),
+/// 1: 2^32 (would wrap to "none"), 2: v + 2^33, 3: -1.  Such a file refers outside the network and must be refused.
+const TEXT_FIELDS: [&str; 6] = ["idx_next", "idx_next_alt", "idx_prev", "idx_prev_alt", "idx_curr", "idx_flip"];
+fn text_fault(net: &Network, link: usize, field: &str, variant: usize) -> Option<(Value, i128)> {
+    let mut tree = serde_json::to_value(net).ok()?;
+    let slot = tree.get_mut(link)?.get_mut(field)?;
+    let v = slot.as_u64()? as i128;
+    let new: i128 = match variant {
+        0 => v + (1i128 << 32),
+        1 => 1i128 << 32,
+        2 => v + (1i128 << 33),
+        _ => -1,
+    };
+    *slot = if new < 0 { serde_json::json!(new as i64) } else { serde_json::json!(new as u64) };
+    Some((tree, new))
+}
+fn text_judge(tree: &Value, field: &str, new: i128) -> Vec<(String, String)> {
+    use altrios_core::traits::SerdeAPI;
+    let mut f = vec![];
+    let js = tree.to_string();
+    let ys = serde_yaml::to_string(tree).unwrap_or_default();
+    for (name, r) in [("from_json", guarded(|| Network::from_json(&js).map(|_| ()).map_err(|e| format!("{e:#}")))), ("from_yaml", guarded(|| Network::from_yaml(&ys).map(|_| ()).map_err(|e| format!("{e:#}"))))] {
+        match r {
+            Ok(Ok(())) => f.push((format!("inconsistent-network-accepted@Network::{name}:text:{field}:outside-u32"), format!("a network file whose {field} is {new} (outside the index range) was accepted"))),
+            Ok(Err(_)) => {}
+            Err(p) => f.push((format!("panic@Network::{name}:text:{field}:outside-u32"), p.chars().take(200).collect())),
+        }
+    }
+    f
+}
+
 fn class_of(c: &Case, n: usize) -> String {
     if IDX_FIELDS.contains(&c.field.as_str()) {
         if c.variant >= n {
@@ -732,6 +765,30 @@ impl Prop for C16 {
                 }
             }
         }
+        // text-level faults: index fields of the network file outside the u32 range
+        for (bi, (_bname, net)) in bases.iter().enumerate() {
+            for li in 1..net.0.len() {
+                if !ctx.claim() {
+                    continue;
+                }
+                for field in TEXT_FIELDS {
+                    for variant in 0..4usize {
+                        let c = Case { base: bi, link: li, field: format!("text:{field}"), variant, second: None };
+                        if let Some((tree, new)) = text_fault(net, li, field, variant) {
+                            ctx.describe(&serde_json::to_value(&c).unwrap());
+                            ctx.evaluation();
+                            ctx.state();
+                            ctx.transition();
+                            ctx.checks(2);
+                            ctx.sig(&format!("text:{field}:{variant}"));
+                            for (k, w) in text_judge(&tree, field, new) {
+                                ctx.violation(&k, w, serde_json::to_value(&c).unwrap(), (li + variant) as u64);
+                            }
+                        }
+                    }
+                }
+            }
+        }
         // thorough tier: EVERY PAIR of mutations on the two smallest feature-carrying bases -- a second fault must neither
         // mask the first one (early exits) nor turn an error into a panic
         if ctx.tier.is_thorough() {
@@ -797,6 +854,13 @@ impl Prop for C16 {
             Err(e) => return ReplayOutcome { violations: vec![("bad-replay-file".into(), e.to_string())], observation: String::new() },
         };
         let bases = base_networks();
+        if let Some(field) = c.field.strip_prefix("text:") {
+            let v = match text_fault(&bases[c.base].1, c.link, field, c.variant) {
+                Some((tree, new)) => text_judge(&tree, field, new),
+                None => vec![],
+            };
+            return ReplayOutcome { violations: v, observation: format!("text fault {} variant {}", field, c.variant) };
+        }
         let mut m = bases[c.base].1.clone();
         let mut v = vec![];
         let class;
